@@ -228,3 +228,52 @@ vm_prop("C11", [GV + ("bc", 1), GV + ("lazy", 1), GV + ("partial", 1)],
         [GV + ("bc", 1), GV + ("lazy", 1), GV + ("partial", 2), GV + ("objs", 1), GV + ("opt", 1), GV + ("builtins", 2), GV + ("u1", 2)])
 vm_prop("C03", [GV + ("bc", 1), GV + ("lazy", 1), GV + ("partial", 1), GV + ("over", 1)],
         [GV + ("bc", 1), GV + ("lazy", 1), GV + ("partial", 2), GV + ("over", 1), GV + ("objs", 1), GV + ("builtins", 2), GV + ("u1", 2), GV + ("u2", 1)])
+
+
+# ---------------------------------------------------------------------------- front end (C08, C09, C12-steps)
+FRONT_REL = {
+    "C09": {"lexaccept", "tokens", "partition", "positions", "longest", "wholeword", "dotquestion", "total"},
+    "C08": {"parseaccept", "tree", "spans", "nonassoc", "total"},
+}
+GF = ("Gen_Front", "Gen_Front.cfg")
+
+
+def front_key(r):
+    return json.dumps([r.get("ops"), r.get("src")], sort_keys=True)
+
+
+def front_stage(run, pid, modes, explore=0, explore_mode="", relevant=None):
+    rel = relevant if relevant is not None else FRONT_REL[pid]
+    base = 0
+    for module, cfg, mode, size in modes:
+        cases, n = run.generate(module, cfg, mode=mode, size=size, idbase=base)
+        base += n
+        obs = run.replay("front", cases=cases, name="front_%s_%s" % (mode, size))
+        verdicts = run.validate("Trace_Front", obs)
+        run.triage("front", "Trace_Front", obs, verdicts, rel, key=front_key,
+                   nontrivial=lambda r: len(r.get("src", [])) >= 3)
+    if explore:
+        obs = run.replay("front", explore=explore, mode=explore_mode, name="front_explore", idbase=base)
+        verdicts = run.validate("Trace_Front", obs)
+        run.triage("front", "Trace_Front", obs, verdicts, rel, key=front_key, nontrivial=lambda r: len(r.get("src", [])) >= 3)
+
+
+FRONT_RULE = ("cases: TLC enumerates source texts (atom strings, token strings, operator-table x shape families); each state holds "
+              "the specification's own lexing and parsing, the property is an invariant; every case goes through the real lexer "
+              "and parser; TLC compares tokens / tree / spans / eat count and re-evaluates the property on the observed tokens and tree. "
+              "distinct = distinct (operator table, text); non-trivial = at least 3 characters")
+
+
+def front_prop(pid, quick_modes, thorough_modes):
+    def fn(tier, seed):
+        run = Run(pid, tier, seed)
+        modes = thorough_modes if tier == "thorough" else quick_modes
+        front_stage(run, pid, modes)
+        run.bounds = dict(universes=[dict(root=m[0], mode=m[2], size=m[3]) for m in modes])
+        return finish(run, "model_checking", FRONT_RULE, assumptions=["TLC's evaluation of the TLA+ operators is trusted"])
+    PROPS[pid] = fn
+    REPLAY[pid] = ("front", "Trace_Front", FRONT_REL[pid])
+
+
+front_prop("C09", [GF + ("lex", 2), GF + ("toks", 2)], [GF + ("lex", 3), GF + ("toks", 4)])
+front_prop("C08", [GF + ("prec", 1), GF + ("toks", 3)], [GF + ("prec", 1), GF + ("toks", 5)])
